@@ -293,7 +293,7 @@ Qed.
 
 (* phase 4: one pass over the tests.  What was kept BEFORE the pass (m0) decides at least. *)
 Definition test_goal (m0 : kset) (t : target) (m : kset) : Prop :=
-  t_test t = true -> forall ds x, public_deps (fuel_of g) g t = Some ds -> In x ds ->
+  t_test t = true -> exists ds, public_deps (fuel_of g) g t = Some ds /\ forall x, In x ds ->
   In (t_label x) m0 -> t_test_only x = false -> exists_in g (t_label t) -> In (t_label t) m.
 
 Lemma test_step_none t x : test_step g t None x = None.
@@ -332,9 +332,10 @@ Proof.
         -- injection Hs1 as <-. split; [split; assumption|]. split; [apply incl_refl|].
            intros Hin0. apply Hi1 in Hin0. apply kmem_In in Hin0. congruence.
       * intros x k1 k1' Hg1 Hincl H1 H2 H3. apply Hincl, Hg1; assumption.
-      * split; [assumption|]. split; [assumption|]. intros _ ds' x Hds' Hx. injection Hds' as <-. apply Hgoal, Hx.
+      * split; [assumption|]. split; [assumption|]. intros _. exists ds. split; [reflexivity|]. exact Hgoal.
     + injection Hs as <-. split; [split; assumption|]. split; [apply incl_refl|]. intros Hd; discriminate.
-  - intros t k k' Hgk Hincl Ht ds x H1 H2 H3 H4 H5. apply Hincl. eapply Hgk; eassumption.
+  - intros t k k' Hgk Hincl Ht. destruct (Hgk Ht) as [ds [Hds Hall]]. exists ds. split; [assumption|].
+    intros x H2 H3 H4 H5. apply Hincl. eapply Hall; eassumption.
   - split; [assumption|apply incl_refl].
   - split; [assumption|]. split; [assumption|]. intros _ t Ht. apply Hg, Ht.
 Qed.
@@ -405,4 +406,228 @@ Proof.
   - intros l [p [Hp Hl]] Hex. apply Hi3. eapply Hs2; eassumption.
 Qed.
 
+Lemma kept0_in m0 m : keep_facts m0 m -> forall l, Kept0 g a l -> In l m0.
+Proof.
+  intros KF l HK. induction HK as [t Hin Hr|l Hs Hex|l t d HK IH Hf Hd Hex].
+  - eapply kf_roots; eassumption.
+  - eapply kf_subs; eassumption.
+  - eapply (kf_closed0 _ _ KF); eassumption.
+Qed.
+
+(* whatever one round of tests keeps, the code keeps *)
+Lemma kept1_in m0 m : keep_facts m0 m -> forall l, Kept1 g a l -> In l m.
+Proof.
+  intros KF l HK. induction HK as [l H0|t x Hin Ht Hinc Hto H0 Ho|l t d HK IH Hf Hd Hex].
+  - eapply kf_incl; [eassumption|]. eapply kept0_in; eassumption.
+  - destruct (kf_tests _ _ KF Hinc t Hin Ht) as [ds [Hds Hall]].
+    apply (Hall x); [eapply public_deps_complete; eassumption|eapply kept0_in; eassumption|assumption|apply In_exists_in; assumption].
+  - eapply (kf_closed _ _ KF); eassumption.
+Qed.
+
+Lemma existsb_false {X} (f : X -> bool) l : existsb f l = false -> forall x, In x l -> f x = false.
+Proof.
+  intros H x Hin. destruct (f x) eqn:E; [|reflexivity].
+  assert (existsb f l = true) by (apply existsb_exists; exists x; split; assumption). congruence.
+Qed.
+
+(* when no test is left unstable, everything the property calls kept is kept by the code *)
+Lemma kept_in m0 m : keep_facts m0 m -> (forall t, In t (g_targets g) -> test_unstable g m t = false) ->
+  forall l, Kept g a l -> In l m.
+Proof.
+  intros KF Hst l HK. induction HK as [t Hin Hr|l Hs Hex|l t d HK IH Hf Hd Hex|t x Hin Ht Hto HK IH Ho].
+  - eapply kf_incl; [eassumption|]. eapply kf_roots; eassumption.
+  - eapply kf_incl; [eassumption|]. eapply kf_subs; eassumption.
+  - eapply (kf_closed _ _ KF); eassumption.
+  - specialize (Hst t Hin). unfold test_unstable in Hst. rewrite Ht in Hst.
+    destruct (kmem (t_label t) m) eqn:Ek; [apply kmem_In; assumption|]. cbn [andb negb] in Hst.
+    destruct (public_deps (fuel_of g) g t) as [ds|] eqn:Epd; [|discriminate].
+    pose proof (existsb_false _ _ Hst x (public_deps_complete _ _ _ Hto _ _ Epd)) as Hx. cbv beta in Hx.
+    apply kmem_In in IH. rewrite IH, Ho in Hx. discriminate.
+Qed.
+
 End Phases.
+
+(* ---- what is removed ------------------------------------------------------------------------------ *)
+Lemma removable_not_kept g a m t : removable g a m t = true -> ~ In (t_label (gc_sibling g t)) m.
+Proof.
+  unfold removable, GcConds.remove_cond. intros H Hin. apply kmem_In in Hin. rewrite Hin in H.
+  destruct (has_parent (t_label (gc_sibling g t))); discriminate.
+Qed.
+
+Lemma keep_srcs_In g m k t f : In k m -> find_target g k = Some t -> In f (t_srcs t) -> In f (keep_srcs g m).
+Proof.
+  intros Hk Hf Hs. unfold keep_srcs. apply in_flat_map. exists k. split; [assumption|]. unfold srcs_of. rewrite Hf. assumption.
+Qed.
+
+Lemma gc_inv g a rem srcs : gc g a = Some (rem, srcs) ->
+  exists m, gc_keep g a = Some m /\
+    (forall r, In r rem -> exists t, In t (g_targets g) /\ t_label t = r /\ ~ In (t_label (gc_sibling g t)) m) /\
+    (forall f, In f srcs -> In f (removed_srcs g a m) /\ ~ In f (keep_srcs g m)).
+Proof.
+  unfold gc. destruct (gc_keep g a) as [m|]; [|discriminate]. intros H. injection H as <- <-.
+  exists m. split; [reflexivity|]. split.
+  - intros r Hr. apply In_sort_by in Hr. unfold removed_targets in Hr. apply in_map_iff in Hr.
+    destruct Hr as [t [Hl Hin]]. apply filter_In in Hin. destruct Hin as [Hin Hrm].
+    exists t. split; [assumption|]. split; [assumption|]. eapply removable_not_kept; eassumption.
+  - intros f Hf. apply In_sort_by in Hf. split; [assumption|].
+    unfold removed_srcs in Hf. apply in_flat_map in Hf. destruct Hf as [t [_ Hf]].
+    apply filter_In in Hf. destruct Hf as [_ Hc]. unfold GcConds.remove_src_cond in Hc.
+    intros Hin. apply str_mem_In in Hin. rewrite Hin in Hc. discriminate.
+Qed.
+
+(* ---- the theorems ---------------------------------------------------------------------------------- *)
+(* unconditional: whatever is removed has its gc sibling outside the one-round kept set, and no removed
+   source is a source of a target in that set *)
+Theorem gc_safe_one_round g a rem srcs : gc g a = Some (rem, srcs) ->
+  (forall r, In r rem -> exists t, In t (g_targets g) /\ t_label t = r /\ ~ Kept1 g a (t_label (gc_sibling g t))) /\
+  (forall f, In f srcs -> forall k t, Kept1 g a k -> find_target g k = Some t -> ~ In f (t_srcs t)).
+Proof.
+  intros H. destruct (gc_inv _ _ _ _ H) as [m [Hk [Hrem Hsrcs]]].
+  destruct (gc_keep_facts _ _ _ Hk) as [m0 KF]. split.
+  - intros r Hr. destruct (Hrem r Hr) as [t [Hin [Hl Hns]]]. exists t. split; [assumption|]. split; [assumption|].
+    intros HK. apply Hns. eapply kept1_in; eassumption.
+  - intros f Hf k t HK Hft Hs. destruct (Hsrcs f Hf) as [_ Hnk]. apply Hnk.
+    eapply keep_srcs_In; [eapply kept1_in; eassumption|eassumption|assumption].
+Qed.
+
+Lemma uses_b_spec t f : uses t f -> uses_b t f = true.
+Proof.
+  intros [x [Hin Hx]]. unfold uses_b. apply existsb_exists. exists x. split; [assumption|].
+  destruct Hx as [->|Hp]; [rewrite str_eqb_refl; reflexivity|rewrite Hp; apply orb_true_r].
+Qed.
+
+(* outside the listed defect classes the property holds at full strength *)
+Theorem gc_safe_unless_defect g a rem srcs : gc g a = Some (rem, srcs) -> defect_class g a = None ->
+  safe_targets g a rem /\ safe_sources g a srcs.
+Proof.
+  intros H Hd. destruct (gc_inv _ _ _ _ H) as [m [Hk [Hrem Hsrcs]]].
+  destruct (gc_keep_facts _ _ _ Hk) as [m0 KF].
+  unfold defect_class in Hd. rewrite Hk in Hd.
+  destruct (existsb (fun t => kmem (t_label t) m && negb (kmem (t_label (gc_sibling g t)) m)) (g_targets g)) eqn:E1; [discriminate|].
+  destruct (existsb (test_unstable g m) (g_targets g)) eqn:E2; [discriminate|].
+  destruct (existsb (fun f => existsb (fun k => match find_target g k with Some t => uses_b t f | None => false end) m)
+                    (removed_srcs g a m)) eqn:E3; [discriminate|].
+  pose proof (kept_in _ _ _ _ KF (existsb_false _ _ E2)) as Hall.
+  split.
+  - intros r Hr HK. destruct (Hrem r Hr) as [t [Hin [Hl Hns]]]. subst r.
+    pose proof (existsb_false _ _ E1 t Hin) as Ht. cbv beta in Ht.
+    apply Hall, kmem_In in HK. rewrite HK in Ht. cbn [andb] in Ht.
+    apply negb_false_iff, kmem_In in Ht. contradiction.
+  - intros f Hf k t HK Hft Hu. destruct (Hsrcs f Hf) as [Hrf _].
+    pose proof (existsb_false _ _ E3 f Hrf) as H3. cbv beta in H3.
+    pose proof (existsb_false _ _ H3 k (Hall k HK)) as H4. cbv beta in H4. rewrite Hft in H4.
+    rewrite (uses_b_spec _ _ Hu) in H4. discriminate.
+Qed.
+
+(* ---- witnesses --------------------------------------------------------------------------------------- *)
+Definition lp (n : String.string) : label := L [] (s "p") (s n).
+Arguments lp n%string_scope.
+Definition mk (n : String.string) (binary test test_only : bool) (labels : list str) (deps : list label)
+              (srcs data : list str) : target :=
+  T (lp n) binary test test_only labels deps deps None srcs data.
+Arguments mk n%string_scope.
+Definition no_args : args := A [] [] [] [] false.
+
+(* 1. the single pass over the tests.  //p:a_test is visited first, when //p:helper is not kept yet;
+      //p:z_test (a test of the kept //p:lib) then pulls //p:helper in; //p:a_test is never looked at again *)
+Definition w_order : graph :=
+  G [ mk "a_test" true true true [] [lp "helper"] [s "p/a_test.go"] [];
+      mk "bin" true false false [] [lp "lib"] [] [];
+      mk "helper" false false false [] [] [s "p/helper.go"] [];
+      mk "lib" false false false [] [] [s "p/lib.go"] [];
+      mk "z_test" true true true [] [lp "helper"; lp "lib"] [s "p/z_test.go"] [] ]
+    [ P [] (s "p") [] [lp "a_test"; lp "bin"; lp "helper"; lp "lib"; lp "z_test"] ].
+
+Lemma w_order_gc : gc w_order no_args = Some ([lp "a_test"], [s "p/a_test.go"]).
+Proof. vm_compute. reflexivity. Qed.
+
+Lemma w_order_kept : Kept w_order no_args (lp "a_test").
+Proof.
+  assert (Hbin : Kept w_order no_args (lp "bin")).
+  { apply (K_root w_order no_args (mk "bin" true false false [] [lp "lib"] [] [])).
+    - right. left. reflexivity.
+    - left. split; [reflexivity|left; reflexivity]. }
+  assert (Hlib : Kept w_order no_args (lp "lib")).
+  { eapply (K_dep w_order no_args (lp "bin")); [exact Hbin|reflexivity|left; reflexivity|discriminate]. }
+  assert (Hz : Kept w_order no_args (lp "z_test")).
+  { apply (K_test w_order no_args (mk "z_test" true true true [] [lp "helper"; lp "lib"] [s "p/z_test.go"] [])
+                  (mk "lib" false false false [] [] [s "p/lib.go"] [])).
+    - do 4 right. left. reflexivity.
+    - reflexivity.
+    - eapply (TO_direct w_order _ (lp "lib")); [right; left; reflexivity|reflexivity|discriminate].
+    - exact Hlib.
+    - reflexivity. }
+  assert (Hh : Kept w_order no_args (lp "helper")).
+  { eapply (K_dep w_order no_args (lp "z_test")); [exact Hz|reflexivity|left; reflexivity|discriminate]. }
+  apply (K_test w_order no_args (mk "a_test" true true true [] [lp "helper"] [s "p/a_test.go"] [])
+                (mk "helper" false false false [] [] [s "p/helper.go"] [])).
+  - left. reflexivity.
+  - reflexivity.
+  - eapply (TO_direct w_order _ (lp "helper")); [left; reflexivity|reflexivity|discriminate].
+  - exact Hh.
+  - reflexivity.
+Qed.
+
+(* 2. gc_sibling: //p:gen_go is needed by the binary; its sibling //p:gen is not, so both go *)
+Definition w_sibling : graph :=
+  G [ mk "bin" true false false [] [lp "gen_go"] [] [];
+      mk "gen" false false false [] [] [s "p/x.proto"] [];
+      mk "gen_go" false false false [s "gc_sibling:gen"] [] [s "p/x.proto"] [] ]
+    [ P [] (s "p") [] [lp "bin"; lp "gen"; lp "gen_go"] ].
+
+Lemma w_sibling_gc : gc w_sibling no_args = Some ([lp "gen"; lp "gen_go"], []).
+Proof. vm_compute. reflexivity. Qed.
+
+Lemma w_sibling_kept : Kept w_sibling no_args (lp "gen_go").
+Proof.
+  eapply (K_dep w_sibling no_args (lp "bin")); [|reflexivity|left; reflexivity|discriminate].
+  apply (K_root w_sibling no_args (mk "bin" true false false [] [lp "gen_go"] [] [])).
+  - left. reflexivity.
+  - left. split; [reflexivity|left; reflexivity].
+Qed.
+
+(* 3. a removed source that is data of a kept target *)
+Definition w_data : graph :=
+  G [ mk "bin" true false false [] [] [] [s "p/golden.txt"];
+      mk "old" false false false [] [] [s "p/golden.txt"] [] ]
+    [ P [] (s "p") [] [lp "bin"; lp "old"] ].
+
+Lemma w_data_gc : gc w_data no_args = Some ([lp "old"], [s "p/golden.txt"]).
+Proof. vm_compute. reflexivity. Qed.
+
+Lemma w_data_used : Kept w_data no_args (lp "bin") /\
+  find_target w_data (lp "bin") = Some (mk "bin" true false false [] [] [] [s "p/golden.txt"]) /\
+  uses (mk "bin" true false false [] [] [] [s "p/golden.txt"]) (s "p/golden.txt").
+Proof.
+  split; [|split; [reflexivity|]].
+  - apply (K_root w_data no_args (mk "bin" true false false [] [] [] [s "p/golden.txt"])).
+    + left. reflexivity.
+    + left. split; [reflexivity|left; reflexivity].
+  - exists (s "p/golden.txt"). split; [left; reflexivity|left; reflexivity].
+Qed.
+
+(* 4. the fixed graph of gc_test.go: nothing wrong with it *)
+Definition lq (p n : String.string) : label := L [] (s p) (s n).
+Arguments lq (p n)%string_scope.
+Definition mq (l : label) (binary test test_only : bool) (deps : list label) : target :=
+  T l binary test test_only [] deps [] None [] [].
+Definition w_unit : graph :=
+  G [ mq (lq "src" "please") true false false [lq "src/core" "core"; lq "src/gc" "gc"];
+      mq (lq "src/cli" "cli") false false false [];
+      mq (lq "src/core" "core") false false false [];
+      mq (lq "src/core" "core_test") true true false [lq "src/core" "core"];
+      mq (lq "src/gc" "gc") false false false [lq "src/core" "core"];
+      mq (lq "src/gc" "gc_test") true true false [lq "src/gc" "gc"; lq "src/gc" "test_lib"];
+      mq (lq "src/gc" "test_lib") false false true [lq "src/core" "core"];
+      mq (lq "src/parse" "parse") false false false [lq "src/core" "core"] ]
+    [].
+
+Lemma w_unit_ok : gc w_unit no_args = Some ([lq "src/cli" "cli"; lq "src/parse" "parse"], [])
+                  /\ defect_class w_unit no_args = None.
+Proof. vm_compute. split; reflexivity. Qed.
+
+Lemma w_classes :
+  defect_class w_order no_args = Some TestNotRevisited /\
+  defect_class w_sibling no_args = Some SiblingNotKept /\
+  defect_class w_data no_args = Some DataOrDirectory.
+Proof. vm_compute. repeat split. Qed.
